@@ -537,6 +537,42 @@ func (fr *frame) syntacticModel(st *State, call *ast.CallExpr, sel *ast.Selector
 			st.storeLeaf(cls, SBool, lv.ref, TTrue)
 			fr.fc.reg.trustedUsed["sync.Once runs its argument exactly once (ghost flag per Once)"] = true
 			return nil, true
+		case "(*sync.Map).Range":
+			// Range with a callback that stops at the first entry (every return is `return false`): the
+			// callback runs exactly once, on some present entry, iff the map is not empty. This is the
+			// "is the map empty / count up to one" idiom; callbacks that may continue are outside the subset.
+			lit, isLit := unparen(call.Args[0]).(*ast.FuncLit)
+			if !isLit || !alwaysReturnsFalse(lit) {
+				panic(unsupported("sync.Map.Range with a callback that may continue"))
+			}
+			recv := fr.methodRecv(st, sel, s)
+			inner := SArray(SInt, SBool)
+			hasArr := st.globalTerm("ghost:.smHas", SArray(SInt, SArray(SInt, inner)))
+			typArr := st.globalTerm("ghost:.smTyp", SArray(SInt, SArray(SInt, SArray(SInt, SInt))))
+			valArr := st.globalTerm("ghost:.smVal", SArray(SInt, SArray(SInt, SArray(SInt, SInt))))
+			noteClass("ghost:.smHas", SArray(SInt, SArray(SInt, inner)), true)
+			noteClass("ghost:.smTyp", SArray(SInt, SArray(SInt, SArray(SInt, SInt))), true)
+			noteClass("ghost:.smVal", SArray(SInt, SArray(SInt, SArray(SInt, SInt))), true)
+			nonEmpty := mkVar(freshName("rangeNonEmpty"), SBool)
+			t0 := mkVar(freshName("rangeKeyTyp"), SInt)
+			k0 := mkVar(freshName("rangeKeyVal"), SInt)
+			bt := mkBVar(freshName("t"), SInt)
+			bk := mkBVar(freshName("k"), SInt)
+			st.assume(
+				Implies(nonEmpty, Select(Select(Select(hasArr, recv.S), t0), k0)),
+				Implies(Not(nonEmpty), Forall([]*Term{bt, bk}, Not(Select(Select(Select(hasArr, recv.S), bt), bk)))),
+			)
+			sub := st.clone()
+			sub.assume(nonEmpty)
+			if !sub.dead {
+				key := &Value{K: VIface, T: types.NewInterfaceType(nil, nil), Typ: t0, S: k0}
+				val := &Value{K: VIface, T: types.NewInterfaceType(nil, nil), Typ: Select(Select(Select(typArr, recv.S), t0), k0), S: Select(Select(Select(valArr, recv.S), t0), k0)}
+				fv := fr.eval(sub, lit)
+				fr.callLiteral(sub, fv, lit, []*Value{key, val})
+				fr.absorbConditional(st, sub, nonEmpty)
+			}
+			fr.fc.reg.trustedUsed["sync.Map.Range visits present entries only; a callback that returns false runs at most once"] = true
+			return nil, true
 		case "(*sync/atomic.Value).Store", "(*sync/atomic.Value).Load":
 			// atomic.Value is a one-field box {v any}; Store/Load are linearizable accesses to it
 			lv := fr.lvalueOf(st, sel.X)
@@ -1225,4 +1261,25 @@ func (fr *frame) callOnceArg(st *State, call *ast.CallExpr, fv *Value) {
 		}
 	}
 	panic(unsupported("sync.Once.Do with a function value without contract"))
+}
+
+// alwaysReturnsFalse: every return statement of the literal (not of nested literals) is `return false`.
+func alwaysReturnsFalse(lit *ast.FuncLit) bool {
+	ok := true
+	seen := false
+	ast.Inspect(lit.Body, func(n ast.Node) bool {
+		switch x := n.(type) {
+		case *ast.FuncLit:
+			return false
+		case *ast.ReturnStmt:
+			seen = true
+			if len(x.Results) != 1 {
+				ok = false
+			} else if id, isID := x.Results[0].(*ast.Ident); !isID || id.Name != "false" {
+				ok = false
+			}
+		}
+		return true
+	})
+	return ok && seen
 }
